@@ -247,6 +247,9 @@ func (i *inspect) fks(ctx context.Context, t *schema.Table) error {
 }
 
 func (i *inspect) addFKs(t *schema.Table, rows *sql.Rows) error {
+	// Release the cursor (and the read lock it holds on the
+	// database file) also when scanning ends with an error.
+	defer rows.Close()
 	ids := make(map[int]*schema.ForeignKey)
 	for rows.Next() {
 		var (
